@@ -12,6 +12,7 @@ import (
 	"verif/vs/c10"
 	"verif/vs/c11"
 	"verif/vs/c12"
+	"verif/vs/c13"
 	"verif/vs/c17"
 	"verif/vs/run"
 )
@@ -24,6 +25,7 @@ var checks = map[string]*run.Check{
 	"C10": c10.Check,
 	"C11": c11.Check,
 	"C12": c12.Check,
+	"C13": c13.Check,
 	"C17": c17.Check,
 }
 
